@@ -9,7 +9,9 @@
 //   mode (the exp VALUE ORACLE seen by the two routines; DESIGN 1.1 / 6-C09 "table of exp values
 //   shared by both sides"): 0 = libm exp; 1 = libm exp rounded to a multiple of 2^-12 (>= 2^-12),
 //   so that every sum the routines form is exact in binary64; 2 = the table given on the case line
-//   (exact argument match; a miss returns NaN and is reported as "@MISS").
+//   (exact argument match; a miss returns NaN and is reported as "@MISS"; the table may hold exact
+//   zeros, denormals and values spread over 45 binades: "underflowed" and wide-dynamic-range weights);
+//   3 = as 1 but WITHOUT the floor at 2^-12: far pairs get the weight exactly 0.0, near ones do not.
 //   The oracle is interposed WITHOUT touching the library: the routines call `exp(...)` unqualified
 //   from namespace tapkee::tapkee_internal, so a function of that name declared there before the
 //   headers are included is the one they bind to.  Every call is logged ("@X count arg val ...").
@@ -34,9 +36,10 @@ static std::vector<std::pair<double, double>> calls;
 static std::vector<std::pair<double, double>> table;
 inline double value(double x)
 {
-    if (mode == 1)
+    if (mode == 1 || mode == 3)
     {
         double r = std::ldexp(std::nearbyint(std::ldexp(std::exp(x), 12)), -12);
+        if (mode == 3) return r;   // no floor: arguments below about -9 give exactly 0.0 (an UNDERFLOWED weight)
         return r < std::ldexp(1.0, -12) ? std::ldexp(1.0, -12) : r;
     }
     if (mode == 2)
@@ -168,7 +171,7 @@ static void run_lap(std::istringstream& is)
 {
     int n, md; std::string wtok;
     is >> md >> n >> wtok;
-    if (!is || n < 0 || n > 4096 || md < 0 || md > 2) { printf("@BADINPUT\n"); return; }
+    if (!is || n < 0 || n > 4096 || md < 0 || md > 3) { printf("@BADINPUT\n"); return; }
     oracle_scope scope(md);
     double width = strtod(wtok.c_str(), NULL);
     tapkee_internal::Neighbors neighbors;
@@ -200,7 +203,7 @@ static void run_dm(std::istringstream& is)
 {
     int n, md; std::string wtok;
     is >> md >> n >> wtok;
-    if (!is || n < 0 || n > 4096 || md < 0 || md > 2) { printf("@BADINPUT\n"); return; }
+    if (!is || n < 0 || n > 4096 || md < 0 || md > 3) { printf("@BADINPUT\n"); return; }
     oracle_scope scope(md);
     double width = strtod(wtok.c_str(), NULL);
     DenseMatrix dist;
